@@ -81,6 +81,15 @@ STATIC = [
      "raw_items": ["pub fn system_error_count(&mut self) -> Result<u8, scpi::Error> { Ok(0) }",
                    "pub fn system_error_next(&mut self) -> Result<u8, scpi::Error> { Ok(0) }",
                    "pub fn system_version(&mut self) -> Result<u8, scpi::Error> { Ok(0) }"]},
+    # sibling nodes that share a spelling without colliding: a mnemonic written in short form only (`OUTP`, `FREQ`) next to
+    # one whose short form it is (`OUTPut`, `FREQuency`), two mnemonics with the same short form (`STATus`, `STATe`) - in
+    # both declaration orders, since a tree that is built incrementally may depend on which comes first
+    {"mod": "s21_shared_spelling", "flags": [], "decls": [
+        d("OUTPut:STATe", "outs", ["bool"]), d("OUTP:LEVel", "outl", ["f32"]), d("STATus:OPERation?", "stop"), d("STATe:RECall", "strc"),
+        d("FREQ:SPAN?", "fspan"), d("FREQuency:CENTer?", "fcent"), d("[SENSe]:FREQuency:STARt?", "fstart")]},
+    {"mod": "s22_shared_spelling_rev", "flags": ["ErrorCommands"], "decls": [
+        d("[SENSe]:FREQuency:STARt?", "fstart"), d("FREQuency:CENTer?", "fcent"), d("FREQ:SPAN?", "fspan"), d("STATe:RECall", "strc"),
+        d("STATus:OPERation?", "stop"), d("OUTP:LEVel", "outl", ["f32"]), d("OUTPut:STATe", "outs", ["bool"]), d("SYST:ERR:ALL?", "eall"), d("SYSTem:ERR_LED", "eled", ["bool"])]},
     # the options of the attribute in the other order: what is requested must not depend on the order it is requested in
     {"mod": "s18_flag_order", "flags": ["ErrorCommands", "StandardCommands"], "decls": [d("USER:CMD", "u"), d("OTHer?", "o")]},
 ]
